@@ -40,7 +40,7 @@ PROPS = {
     "C10": prop(kani=["set_fallbacks_1", "set_fallbacks_2", "modifier_entrait", "modifier_entrait_export", "modifier_entrait_unimock", "modifier_entrait_export_unimock"], explanation="E1: option kernel, cfg_attr(test, ..) gating, emptiness of the unimock params; E3: set_fallbacks; E2: attribute selection over the full option lattice"),
     "C11": prop(explanation="E1: exact unimock attribute parameters incl. unmock_with entries"),
     "C15": prop(explanation="partial: E1 proves panic-freedom and the specific Err of the functions under contract; E2 replays the documented misuses, odd items, malformed option lists and parameter patterns (no panic, output re-parses)", e1_required=False),
-    "C16": prop(level="other", e1=False, e1_required=False, explanation="bounded only: fix_fn_param_idents is string / HashSet / visit_mut code outside Verus' reach; the contract is evaluated exhaustively to the property's own small-scope bound"),
+    "C16": prop(level="other", e1=True, e1_required=False, explanation="E1: the orchestration fix_fn_param_idents is proved from the contracts of its three stages (one plain identifier per parameter, none shadowing the function, positions and types untouched); the stages themselves (fix_ident_conflicts, lift_inner_pat_idents, autogenerate_for_non_idents) are string / HashSet / visit_mut code outside Verus' reach: their contracts are assumed in E1 and evaluated on the real functions by the bounded replay (c16_stage_contracts), as is the whole naming contract, exhaustively to the property's own small-scope bound (c16_param_names)"),
     "C17": prop(kani=["set_fallbacks_1", "set_fallbacks_2", "modifier_entrait", "modifier_entrait_export", "modifier_entrait_unimock", "modifier_entrait_export_unimock"], explanation="E1: option accessors (defaults of the table); E3: set_fallbacks; E2: parsers - bare = true, false = absent, order independence, accepted sets, macro variants as shorthands"),
     "C19": prop(explanation="E1: absolute paths of every emitter under contract"),
 }
@@ -78,7 +78,7 @@ MANIFEST_TEXT = {
     "C12": _t("Proof of future_send(), `.await` emission, async_trait detection, the AsyncTraitParams path; the async rewrite of make_trait_fn_sig (Output type, Send unless ?Send, async_trait kept) is a bounded stand-in over input modes x return types.", _V + " + bounded contract replay"),
     "C13": _t("Proof of TraitVisibility (exactly the requested visibility, `pub(super)` for private traits of mod / impl inputs); attribute parsing, the re-export and the delegation-target trait visibility are a bounded stand-in.", _V + " + bounded contract replay"),
     "C15": _t("Partial. Proof that the functions under contract cannot panic (Verus checks every panic!, unwrap, overflow under the stated preconditions) and return the documented diagnostics (analyze_fn_deps, extract_deps_from_type, detect_trait_dependency_mode, analyze_trait); parsers and assemblers are replayed over a catalogue of misuses, odd items, malformed option lists and parameter patterns (bounded).", _V + " + bounded contract replay"),
-    "C16": _t("Bounded only: the contract of fix_fn_param_idents is evaluated on the real function over every pattern list up to length 4 (5 thorough) of the property's own alphabet - which is the property's own quantifier. Not a proof.", "bounded contract replay (exhaustive small scope); no deductive part: strings, HashSet and visit_mut are outside Verus' reach"),
+    "C16": _t("Mostly bounded: the naming contract of fix_fn_param_idents is evaluated on the real function over every pattern list up to length 4 (6 thorough) of the property's own alphabet - which is the property's own quantifier. Deductive part: the orchestration of the three stages is proved (Verus) to establish 'one plain identifier per parameter, none shadowing the function, positions and types untouched' from the stages' contracts, which are assumed in the proof and replayed on the real stage functions (bounded). Not counted as a proof of the property.", "bounded contract replay (exhaustive small scope) + deductive proof of the stage orchestration under assumed (replayed) stage contracts; strings, HashSet and visit_mut are outside Verus' reach"),
     "C17": _t("Proof of the option accessors (defaults of the table); Kani proof of the variant fallbacks; parsers (bare = true, false = absent, order independence, accepted sets, variants as shorthands) are a bounded stand-in, exhaustive over the stated option sets.", _V + " + Kani harnesses + bounded contract replay of the parsers"),
     "C18": _t("Proof that sub-attributes are re-emitted verbatim, that trait-method attributes are mirrored first and in order, that fn / mod / impl inputs start with an empty attribute list; placement on fn / trait / impl / parameters is a bounded stand-in. One known finding (cfg-disabled fns).", _V + " + bounded contract replay"),
     "C19": _t("Proof that every emitter under contract spells macro-owned references absolutely (`::entrait::Impl<EntraitT>`, `::core::marker::{Sync,Send}`, `::core::convert::AsRef`, `::core::borrow::Borrow`, `::entrait::__unimock::unimock`, `::entrait::__async_trait::async_trait`, `::mockall::automock`, `::entrait::entrait`); quote!-emitted paths are a bounded stand-in. 'Compiles in a hostile scope / no_std' is rustc's.", _V + " + bounded contract replay"),
